@@ -1028,7 +1028,7 @@ void campaign(Ctx& ctx)
 	}
 	else if (ctx.opt.prop == "C19")
 	{
-		ctx.rc_campaign("pcap programs", gen_c19(), thorough ? 20000 : 300, 60, 1);
+		ctx.rc_campaign("pcap programs", gen_c19(), thorough ? 20000 : 900, 60, 1);
 	}
 	else
 	{
